@@ -325,6 +325,9 @@ func (e *EventSubscription) handleQueryEvent(subj string, payload []byte) {
 				// Handle array of events
 				case result.Events != nil:
 					for _, ev := range result.Events {
+						if ev == nil {
+							continue
+						}
 						rs.handleEvent(&ResourceEvent{Event: ev.Event, Payload: ev.Data})
 					}
 				// Handle model response
